@@ -3,8 +3,11 @@ package main
 import (
 	"context"
 	"errors"
+	"io/fs"
 	"os"
 	"path/filepath"
+	"sort"
+	"sync"
 	"time"
 
 	. "verif/harness/hlib"
@@ -42,11 +45,47 @@ func writeAt(root, rel string, data []byte, exec bool) error {
 	return os.WriteFile(p, data, mode)
 }
 
+// recFS records which paths an extractor asks its scan FS for (companion discovery).
+type recFS struct {
+	scalibrfs.FS
+	mu     sync.Mutex
+	opened map[string]bool
+}
+
+func (r *recFS) note(name string) {
+	r.mu.Lock()
+	if r.opened == nil {
+		r.opened = map[string]bool{}
+	}
+	r.opened[name] = true
+	r.mu.Unlock()
+}
+func (r *recFS) Open(name string) (fs.File, error)          { r.note(name); return r.FS.Open(name) }
+func (r *recFS) Stat(name string) (fs.FileInfo, error)      { r.note(name); return r.FS.Stat(name) }
+func (r *recFS) ReadDir(name string) ([]fs.DirEntry, error) { r.note(name); return r.FS.ReadDir(name) }
+
 var errProbeTimeout = errors.New("probe timeout")
 
 // probe runs Extract on an unmodified fixture with a short timeout (used only to choose which
 // fixture is the "valid" file of a format; never an oracle).
 func probe(ex filesystem.Extractor, root, rel string) (pkgs int, err error) {
+	n, err, _ := probeRec(ex, root, rel)
+	return n, err
+}
+
+// probeRec is probe that also reports the other paths the extractor asked the scan FS for.
+func probeRec(ex filesystem.Extractor, root, rel string) (pkgs int, err error, opened []string) {
+	rec := &recFS{FS: scalibrfs.DirFS(root)}
+	defer func() {
+		rec.mu.Lock()
+		for p := range rec.opened {
+			if p != rel {
+				opened = append(opened, p)
+			}
+		}
+		rec.mu.Unlock()
+		sort.Strings(opened)
+	}()
 	type res struct {
 		n   int
 		err error
@@ -57,7 +96,7 @@ func probe(ex filesystem.Extractor, root, rel string) (pkgs int, err error) {
 	go func() {
 		var r res
 		if p := Safely(func() {
-			inv, e := callExtract(ctx, ex, scalibrfs.DirFS(root), root, rel)
+			inv, e := callExtract(ctx, ex, rec, root, rel)
 			r = res{len(inv.Packages), e}
 		}); p != "" {
 			r = res{0, errors.New("panic: " + p)}
@@ -66,9 +105,9 @@ func probe(ex filesystem.Extractor, root, rel string) (pkgs int, err error) {
 	}()
 	select {
 	case r := <-ch:
-		return r.n, r.err
+		return r.n, r.err, nil
 	case <-time.After(6 * time.Second):
-		return 0, errProbeTimeout
+		return 0, errProbeTimeout, nil
 	}
 }
 
@@ -108,7 +147,7 @@ func computeFormats(e *Env, reg []*exInfo, maxClasses int) error {
 						return err
 					}
 				}
-				n, xerr := probe(inf.Ex, root, p)
+				n, xerr, opened := probeRec(inf.Ex, root, p)
 				os.RemoveAll(root)
 				score := 0
 				if xerr == nil {
@@ -123,6 +162,23 @@ func computeFormats(e *Env, reg []*exInfo, maxClasses int) error {
 				if score > bestScore {
 					bestScore = score
 					best.Fixture, best.Valid, best.Pkgs = fx.Rel, xerr == nil && len(data) > 0, n
+				}
+				// the path class on which THIS fixture is extracted best (its natural production path)
+				if inf.bestPath == nil {
+					inf.bestPath, inf.bestScore = map[string]string{}, map[string]int{}
+				}
+				if old, ok := inf.bestScore[fx.Rel]; !ok || score > old {
+					inf.bestScore[fx.Rel], inf.bestPath[fx.Rel] = score, p
+				}
+				// other files the extractor asked its scan FS for: companions, and which scenario reads them
+				for _, o := range opened {
+					if inf.Opened == nil {
+						inf.Opened, inf.openedBy, inf.openedScore = map[string]bool{}, map[string][2]string{}, map[string]int{}
+					}
+					inf.Opened[o] = true
+					if old, ok := inf.openedScore[o]; !ok || score > old {
+						inf.openedScore[o], inf.openedBy[o] = score, [2]string{fx.Rel, p}
+					}
 				}
 			}
 			inf.Formats = append(inf.Formats, best)
